@@ -255,3 +255,93 @@ def observe_scaled(fx, np, props, t, modes, scale, bias, us, route='ctor', scala
                     after=_scaled_followups(fx, np, x))
     except Exception as ex:
         return dict(row, k='error', err=type(ex).__name__, msg=str(ex)[:200])
+
+
+INDEP_FNS = ['neg', 'abs', 'pos', 'add', 'sub', 'mul', 'truediv', 'floordiv', 'mod', 'add-const', 'mul-const', 'invert', 'and-mask', 'or-mask',
+             'xor-mask', 'lshift', 'rshift', 'lshift-trunc', 'rshift-trunc', 'np.sum', 'sum', 'np.cumsum', 'cumsum', 'np.prod', 'prod', 'np.cumprod',
+             'np.max', 'max', 'min', 'np.min', 'np.sort', 'np.clip', 'clip', 'np.transpose', 'np.diagonal', 'np.trace', 'np.dot', 'dot', 'mean',
+             'np.mean', 'std', 'var', 'np.std', 'np.var', 'np.conj', 'like()', 'like=', 'ctor-from-fxp', 'deepcopy', 'np.add', 'np.multiply',
+             'fx.add', 'fx.sub', 'fx.mul', 'np.subtract']
+
+
+def observe_indep(fx, np, fn, t, codes, shape2d):
+    """z1 = f(x); z2 = f(x); mutate z2 and then x: z1 (and, for the first part, x) must not notice (C20)."""
+    import operator as _op
+    Fxp = fx.Fxp
+    s, w, f = t
+    row = {'k': 'indep', 'p': ['C20'], 'fn': fn, 'route': 'indep/' + fn, 'carrier': 'array2d' if shape2d else 'array1d', 'v': [0]}
+    dt = np.int64 if s else np.uint64
+
+    def snapshot(o):
+        st = o.status
+        return {'fmt': {'s': bool(o.signed), 'w': int(o.n_word), 'f': int(o.n_frac)},
+                'codes': [wint(int(c.real) if isinstance(c, complex) else int(c)) for c in np.asarray(o.val).ravel().tolist()],
+                'cfg': {'rnd': str(o.config.rounding), 'ovf': str(o.config.overflow), 'shf': str(o.config.shifting), 'ops': str(o.config.op_sizing)},
+                'st': {'o': bool(st.get('overflow')), 'u': bool(st.get('underflow')), 'i': bool(st.get('inaccuracy'))}}
+    try:
+        a = np.array(codes, dtype=dt)
+        if shape2d:
+            a = a.reshape(2, len(codes) // 2)
+        x = Fxp(a, bool(s), w, f, raw=True, rounding='floor', overflow='wrap')
+        y = Fxp(a[..., ::-1].copy(), bool(s), w, f, raw=True)
+        lo, hi = float(x.lower), float(x.upper)
+        calls = {
+            'neg': lambda: -x, 'abs': lambda: abs(x), 'pos': lambda: +x, 'add': lambda: x + y, 'sub': lambda: x - y, 'mul': lambda: x * y,
+            'truediv': lambda: x / Fxp(3, True, 4, 0), 'floordiv': lambda: x // Fxp(3, True, 4, 0), 'mod': lambda: x % Fxp(3, True, 4, 0),
+            'add-const': lambda: x + 1, 'mul-const': lambda: 2 * x, 'invert': lambda: ~x, 'and-mask': lambda: x & 5, 'or-mask': lambda: 1 | x,
+            'xor-mask': lambda: x ^ 3, 'lshift': lambda: x << 1, 'rshift': lambda: x >> 1,
+            'lshift-trunc': lambda: _shift(x, 'l'), 'rshift-trunc': lambda: _shift(x, 'r'),
+            'np.sum': lambda: np.sum(x, keepdims=True), 'sum': lambda: x.sum(keepdims=True), 'np.cumsum': lambda: np.cumsum(x), 'cumsum': lambda: x.cumsum(),
+            'np.prod': lambda: np.prod(x[..., :2], keepdims=True), 'prod': lambda: x[..., :2].prod(keepdims=True), 'np.cumprod': lambda: np.cumprod(x[..., :2]),
+            'np.max': lambda: np.max(x, keepdims=True), 'max': lambda: x.max(keepdims=True), 'min': lambda: x.min(keepdims=True), 'np.min': lambda: np.min(x, keepdims=True),
+            'np.sort': lambda: np.sort(x), 'np.clip': lambda: np.clip(x, lo / 2, hi / 2), 'clip': lambda: x.clip(lo / 2, hi / 2),
+            'np.transpose': lambda: np.transpose(x), 'np.diagonal': lambda: np.diagonal(x) if shape2d else None,
+            'np.trace': lambda: np.trace(x) if shape2d else None,
+            'np.dot': lambda: np.dot(x, y.T if shape2d else y), 'dot': lambda: x.dot(y.T if shape2d else y),
+            'mean': lambda: x.mean(), 'np.mean': lambda: np.mean(x), 'std': lambda: x.std(), 'var': lambda: x.var(), 'np.std': lambda: np.std(x), 'np.var': lambda: np.var(x),
+            'np.conj': lambda: np.conj(x), 'like()': lambda: x.like(y), 'like=': lambda: Fxp(x(), like=x), 'ctor-from-fxp': lambda: Fxp(x),
+            'deepcopy': lambda: x.deepcopy(), 'np.add': lambda: np.add(x, y), 'np.multiply': lambda: np.multiply(x, y), 'fx.add': lambda: fx.add(x, y),
+            'fx.sub': lambda: fx.sub(x, y), 'fx.mul': lambda: fx.mul(x, y), 'np.subtract': lambda: np.subtract(x, y),
+        }
+
+        def _shift(o, d):
+            o.config.shifting = 'trunc'
+            try:
+                return (o << 1) if d == 'l' else (o >> 1)
+            finally:
+                o.config.shifting = 'expand'
+        if fn not in calls:
+            return None
+        try:
+            z1 = calls[fn]()
+            z2 = calls[fn]()
+        except Exception:
+            return None                  # (a route that is not available for this operand: independence is not about that)
+        if z1 is None or not isinstance(z1, Fxp) or not isinstance(z2, Fxp):
+            return None
+        z1b, xb = snapshot(z1), snapshot(x)
+        same = z1 is z2
+        shm = bool(isinstance(z1.val, np.ndarray) and isinstance(x.val, np.ndarray) and np.shares_memory(z1.val, x.val))
+        # mutate z2: configuration, a write that raises flags, an element write, reset
+        try:
+            z2.config.rounding = 'ceil' if z2.config.rounding != 'ceil' else 'around'
+            z2.config.overflow = 'saturate' if z2.config.overflow != 'saturate' else 'wrap'
+            z2.config.shifting = 'keep'
+            z2.config.op_sizing = 'same'
+            big = float(2.0 ** (int(z2.n_word) - int(z2.n_frac) + 1)) + float(2.0 ** (-int(z2.n_frac) - 1))
+            z2.set_val(np.full(np.shape(z2.val), big) if np.ndim(z2.val) else big)
+            if np.ndim(z2.val) >= 1 and np.size(z2.val):
+                z2[(0,) * np.ndim(z2.val)] = 0.0
+        except Exception:
+            pass
+        xa = snapshot(x)
+        # ... and the operand itself
+        try:
+            x[(0,) * np.ndim(x.val)] = float(x.upper)
+            x.config.rounding = 'trunc'
+            x.set_val(np.full(np.shape(x.val), big) if np.ndim(x.val) else big)
+        except Exception:
+            pass
+        return dict(row, same=bool(same), shm=shm, z1b=z1b, z1a=snapshot(z1), xb=xb, xa=xa)
+    except Exception as ex:
+        return dict(row, k='error', err=type(ex).__name__, msg=str(ex)[:200])
